@@ -39,8 +39,12 @@ RULES = {
     "graph, function, IR<10 function entries stored in the main graph) resolves a repeated name the same way - all last-wins "
     "(dict comprehension, plain store) or all first-wins (setdefault, `if k not in`): an entry that belongs to two tables and is "
     "read with opposite precedence makes serialize(deserialize(P)) swap the two entries on every round trip",
+    "R9": "defaults survive an empty value_info: where the deserializer builds a Value with type/shape taken from its tensor and then "
+    "applies a ValueInfoProto to it (the applying function assigns type and shape unconditionally, None when the proto has none), "
+    "each pre-populated field is re-established afterwards when it came back None - otherwise the first round trip drops the "
+    "initializer's entry and the second one re-creates it from the tensor: no fixed point",
 }
-FLOORS = {"R1": 45, "R2": 6, "R3": 5, "R4": 5, "R5": 2, "R6": 3, "R7": 2, "R8": 3}
+FLOORS = {"R1": 45, "R2": 6, "R3": 5, "R4": 5, "R5": 2, "R6": 3, "R7": 2, "R8": 3, "R9": 2}
 EXPLANATION = (
     "Effect summaries (file-system primitives through the resolved call graph) for the deserialization entry set and "
     "the cheap tensor accessors; a sub-term analysis of every recursive call edge of the deserializer; dominator "
@@ -458,7 +462,42 @@ def rule_r8(ctx):
                   construct=f"value_info table with {k}-wins precedence in {f.local}")
 
 
+def rule_r9(ctx):
+    m = ctx.repo.modules[SERDE]
+    applier = m.functions.get("deserialize_value_info_proto")
+    ctx.require(applier is not None and len(applier.params) >= 2, "deserialize_value_info_proto not found")
+    vp = applier.params[1]
+    uncond = {t.attr for a in applier.node.body if isinstance(a, ast.Assign) for t in a.targets
+              if isinstance(t, ast.Attribute) and isinstance(t.value, ast.Name) and t.value.id == vp and t.attr in ("type", "shape")}
+    n = 0
+    for f in m.all_funcs:
+        if isinstance(f.node, ast.Lambda):
+            continue
+        for a in own_nodes(f.node):
+            if not (isinstance(a, ast.Assign) and isinstance(a.targets[0], ast.Name) and isinstance(a.value, ast.Call)
+                    and (dotted_of(a.value.func) or "").split(".")[-1] == "Value"):
+                continue
+            pre = {k.arg for k in a.value.keywords if k.arg in ("type", "shape") and not (isinstance(k.value, ast.Constant) and k.value.value is None)}
+            v = a.targets[0].id
+            applies = [c for c in calls_in(f) if dotted_of(c.func) == applier.name and len(c.args) >= 2 and isinstance(c.args[1], ast.Name) and c.args[1].id == v
+                       and c.lineno > a.lineno]
+            if not pre or not applies:
+                continue
+            for fld in sorted(pre & uncond):
+                n += 1
+                restored = any(isinstance(i, ast.If) and i.lineno > applies[0].lineno and norm(i.test) == f"{v}.{fld} is None" and any(
+                    isinstance(st, ast.Assign) and any(norm(t) == f"{v}.{fld}" for t in st.targets) for st in i.body) for i in own_nodes(f.node))
+                ctx.check("R9", f"{f.local}: `{v}.{fld}` taken from the tensor is re-established when the value_info leaves it None", restored, f, applies[0],
+                          f"`{v}` is built with its {fld} taken from the tensor, then `{norm(applies[0])[:70]}` assigns `{fld}` unconditionally (None for an entry without a "
+                          "type) and nothing restores it: serialize(deserialize(P)) drops the initializer's value_info, and the next round trip re-creates it from the "
+                          "tensor - the serialized form is not a fixed point",
+                          how="Value(...) pre-populated with type/shape, later passed to the value_info applier; `if v.F is None: v.F = …` after the call",
+                          construct=f"pre-populated {fld} erased by an empty value_info in {f.local}")
+    ctx.require(n >= 2, f"only {n} pre-populated fields found that a value_info entry can overwrite")
+
+
 def run(ctx):
+    rule_r9(ctx)
     rule_r8(ctx)
     from ..shared import rule_s9
 
